@@ -75,7 +75,7 @@ def value_doc(t, v, cfg):
     # (a member declared exc=True is outside the documents: not written by name, no slot in the positional list)
     if cfg['ca'] == 'list':
         return [member_doc(f, x, cfg) for f, x in zip(fl, v[2]) if not f.get('exc')]
-    body = {f['n']: member_doc(f, x, cfg) for f, x in zip(fl, v[2]) if (x != ['nil'] or f['min'] > 0) and not f.get('exc')}
+    body = {f.get('sub', f['n']): member_doc(f, x, cfg) for f, x in zip(fl, v[2]) if (x != ['nil'] or f['min'] > 0) and not f.get('exc')}
     return body if cfg['iw'] else {rt['name']: body}
 
 
@@ -152,7 +152,7 @@ def value_read(t, x, cfg):
     if not isinstance(x, dict):
         return ['leaf', '?%s' % type(x).__name__]
     x = {(kk.decode('utf8') if isinstance(kk, bytes) else kk): vv for kk, vv in x.items()}
-    return ['obj', rt['name'], [member_read(f, x.get(f['n']), cfg) for f in fl]]
+    return ['obj', rt['name'], [member_read(f, x.get(f.get('sub', f['n'])), cfg) for f in fl]]
 
 
 def ret_fields(c):
